@@ -238,6 +238,25 @@ impl ServerWorld {
                 }
             }
         }
+        // the aggregate getters agree with the per-id ones
+        {
+            let ids = self.srv.clients_id();
+            let dis = self.srv.disconnections_id();
+            if self.srv.connected_clients() != ids.len() || self.srv.has_connections() != !(ids.is_empty() && dis.is_empty()) {
+                return Err(Violation::new(
+                    "C12/listing-inconsistent",
+                    format!("connected_clients() = {}, has_connections() = {}, clients_id() = {:?}, disconnections_id() = {:?}", self.srv.connected_clients(), self.srv.has_connections(), ids, dis),
+                ));
+            }
+            for &id in &self.ids {
+                let known = conn_ids.contains(&id);
+                let srv = &self.srv;
+                let info = guard("network_info", || srv.network_info(id).is_ok())?;
+                if info != known {
+                    return Err(Violation::new("C12/listing-inconsistent", format!("network_info({}) is_ok = {} but the connection {}", id, info, if known { "exists" } else { "does not exist" })));
+                }
+            }
+        }
         // local client objects: once disconnected they stay so, whatever the transport status calls say
         for (i, lc) in self.local.iter().enumerate() {
             if let Some(lc) = lc {
